@@ -616,6 +616,10 @@ class Randomizer(RandIF):
             for rs in ri.randsets():
                 for f in rs.all_fields():
                     f.dispose()
+                    if hasattr(f.parent, "sum_expr_btor"):
+                        # Element of a list: drop the list's cached sum/product nodes
+                        f.parent.sum_expr_btor = None
+                        f.parent.product_expr_btor = None
 
         visited = [] 
         for fm in field_model_l:
